@@ -374,6 +374,29 @@ def mutate(rng, text: str, n: int) -> str:
     return text
 
 
+def corrupt_bytes(rng, text: str) -> str:
+    """Byte-level mutation of the encoded file: the result may not be valid UTF-8.
+    Returned as str with the undecodable bytes as lone surrogates (surrogateescape)."""
+    data = bytearray(text.encode("utf-8", "surrogateescape"))
+    for _ in range(rng.randint(1, 3)):
+        k = rng.choice(["ins", "flip", "cut_multibyte", "latin1", "overlong", "bom16"])
+        pos = rng.below(len(data) + 1)
+        if k == "ins":
+            data[pos:pos] = bytes([rng.choice([0xFF, 0xFE, 0x80, 0xC3, 0xE2, 0xF0, 0xC0, 0xED])])
+        elif k == "flip" and data:
+            pos = rng.below(len(data))
+            data[pos] ^= 0x80
+        elif k == "cut_multibyte":
+            data[pos:pos] = "é→😀".encode("utf-8")[: rng.randint(1, 8)]
+        elif k == "latin1":
+            data[pos:pos] = "// caf\xe9 na\xefve\n".encode("latin-1")
+        elif k == "overlong":
+            data[pos:pos] = b"\xc0\xaf"
+        else:
+            data[0:0] = b"\xff\xfe"
+    return bytes(data).decode("utf-8", "surrogateescape")
+
+
 def random_tokens(rng, n: int) -> str:
     out = []
     for _ in range(n):
